@@ -6,6 +6,7 @@ CONSTANTS
   MAXU = 3
   OBJS = {"a", "r"}
   PROP = "C09"
+  PERT = {1}
 SPECIFICATION Spec
 INVARIANTS C09 C02 C03 NoJunk EmitReplay
 CHECK_DEADLOCK FALSE
